@@ -166,7 +166,9 @@ def run(ctx):
                 hit = None
                 if s["field"] != "Directory.dir_entries" and s["value"] is not None and any(a == s["value"] for a in argps):
                     hit = "same value"
-                elif s["field"] != "Directory.dir_entries" and any(re.search(r"param:self\.%s\b" % re.escape(fieldname), a) for a in argps):
+                elif s["field"] != "Directory.dir_entries" and any((re.search(r"param:self\.%s\b" % re.escape(fieldname), a) if not (s["op"] == "push" and s["value"] is not None) else re.match(r"^(cast\()?(deref\()?(ok\()?(param:self\.%s\b|Index<I>::index\(param:self\.%s,|<impl \[T\]>::last\(param:self\.%s\))" % ((re.escape(fieldname),) * 3), a)) for a in argps):
+                    # (for a push, only the element itself read back from the table counts: the table's LENGTH, or an expression
+                    # that merely mentions the table, is another datum)
                     hit = "load of the stored field"
                 elif s["field"] == "Directory.dir_entries":
                     if re.search(r"write_dir_entry$", c.name) and s["index"] is not None and len(argps) > 1 and argps[1] == s["index"]:
